@@ -452,6 +452,21 @@ class Driver:
         database coincides with an id in one of the small per-history databases (ids are per database)."""
         self.ddl(None, 'create database "%s"' % M.SHARED_DB)
         self.write(None, M.SHARED_DB, M.DEF_RP, [("pad", (("i", "p%02d" % i),), M.TS[0], {"v": 1.0}) for i in range(64)])
+        # one DROP SERIES before the histories start: the delete index of a partition is created by the first DROP
+        # SERIES that finds something, and two concurrent first drops race there (one loses its deletions; observed,
+        # see notes). Histories are sequential by the statement; their concurrency is only the harness's batching.
+        # (the dropped series is written after the padding, so its id is above the padding as well)
+        self.write(None, M.SHARED_DB, M.DEF_RP, [("padx", (("i", "x"),), M.TS[0], {"v": 1.0})])
+        t0 = time.time()
+        while True:
+            st, js = self.srv.query("show series from padx", db=M.SHARED_DB)
+            ok, got = M.normalise("series", st, js)
+            if ok == "ok" and got == ["padx,i=x"]:
+                break
+            if time.time() - t0 > BARRIER_TIMEOUT:
+                raise blackbox.ToolError("padding series never visible: %s" % (got,))
+            time.sleep(0.1)
+        self.ddl(None, "drop series from padx where i = 'x'", db=M.SHARED_DB)
 
     def execute(self, S, disable_compaction, special):
         self.execute_histories(S, disable_compaction)
